@@ -30,3 +30,16 @@ Theorem C08_direction_filter :
                            crossed Rops l r DirPositive = false).
 Proof. exact crossed_strict_opposite. Qed.
 Print Assumptions C08_direction_filter.
+
+(* every reported event time, and every point at which the event function is evaluated while it is being located,
+   lies inside the accepted step [min(xold,x), max(xold,x)] -- real-number semantics, for ANY event function,
+   interpolant, event index and endpoint values, converged or not (proofs/BrentFacts.v).  With the sign normalisation
+   of the pinned tree this was false (finding F12: roots reported outside the step and outside the span). *)
+Require Import Reals.
+Require Import IVP.model.RealOps IVP.proofs.BrentFacts.
+Theorem C08_event_located_inside_its_step :
+  forall (C : hconfig (F:=R)) i xold x yold y gprev gcurr sg,
+    let '(te, _, pts, _) := locate_event Rops C i xold x yold y gprev gcurr sg in
+    (Rmin xold x <= te <= Rmax xold x)%R /\ Forall (fun p => (Rmin xold x <= p <= Rmax xold x)%R) pts.
+Proof. exact locate_event_in_step. Qed.
+Print Assumptions C08_event_located_inside_its_step.
